@@ -48,6 +48,8 @@ pub(in super::super) struct BlockReader<'r, 's, R> {
 	/// Represents whether we were hinted deserialize_ignored_any. If yes, we
 	/// can use the block length to skip the block.
 	ignored: bool,
+	/// Whether the end-of-sequence marker has been read
+	finished: bool,
 }
 impl<'r, 's, R> BlockReader<'r, 's, R> {
 	pub(in super::super) fn new(
@@ -61,6 +63,7 @@ impl<'r, 's, R> BlockReader<'r, 's, R> {
 			n_read: 0,
 			allowed_depth,
 			ignored: hinted_ignored,
+			finished: false,
 		}
 	}
 	fn has_more<'de>(&mut self) -> Result<bool, DeError>
@@ -71,7 +74,10 @@ impl<'r, 's, R> BlockReader<'r, 's, R> {
 			None => {
 				let new_len = read_block_len(self.reader, self.ignored)?;
 				match new_len {
-					None => return Ok(false),
+					None => {
+						self.finished = true;
+						return Ok(false);
+					}
 					Some(new_len) => {
 						let l = new_len.get();
 						let n_read = self.n_read.saturating_add(l);
@@ -110,6 +116,22 @@ impl<'de, R: ReadSlice<'de>> SeqAccess<'de> for ArraySeqAccess<'_, '_, R> {
 			state: self.block_reader.reader,
 			allowed_depth: self.block_reader.allowed_depth,
 		})?))
+	}
+}
+
+impl<'de, R: ReadSlice<'de>> ArraySeqAccess<'_, '_, R> {
+	/// Make sure that the array has been read to its end
+	///
+	/// Visitors of tuple-like types stop asking after the number of elements they
+	/// expect, in which case the end-of-array marker has not been read yet (and
+	/// whatever follows the array would be read from the wrong position).
+	pub(in super::super) fn end(mut self) -> Result<(), DeError> {
+		if !self.block_reader.finished && self.block_reader.has_more()? {
+			return Err(DeError::new(
+				"Array has more elements than the tuple-like type it is deserialized into",
+			));
+		}
+		Ok(())
 	}
 }
 
